@@ -139,7 +139,8 @@ def run(prop, tier):
     wd = vlib.workdir(prop, "run")
     outp = os.path.join(wd, "conc.ndjson")
     env = {"VERIF_OUT": outp, "VERIF_TIER": tier, "VERIF_CONC_REPS": "1" if tier == "quick" else "4",
-           "VERIF_CONC_BATCHES": "80" if tier == "quick" else "600", "GORACE": "halt_on_error=0"}
+           "VERIF_CONC_BATCHES": "80" if tier == "quick" else "600", "VERIF_CONC_PATIENCE_S": "12" if tier == "quick" else "35",
+           "GORACE": "halt_on_error=0"}
     rc, out, err, summ = vlib.run_harness(binp, "TestVerifConc", env, timeout=3000)
     if not summ:
         m = re.search(r"fatal error: (concurrent map[^\n]*)", err + out)
@@ -238,8 +239,9 @@ def run(prop, tier):
         pair = "+".join(sorted([e["A"], e["B"]]))
         if e["overlaps"] and ("wire", pair) not in seen:
             seen.add(("wire", pair))
-            verdict.violation("wire:" + pair, "a second request was written to the single upstream connection while %s's request %d was outstanding"
-                              % (e["A"], e["hold"]), vlib.save_replay(prop, "wire_%s.json" % pair, e))
+            verdict.violation("wire:" + pair, "a second request was written to the single upstream connection while %s's request %d was outstanding%s"
+                              % (e["A"], e["hold"], " (left unanswered for %d ms)" % e["patience_ms"] if e.get("patience_ms", 0) > 1000 else ""),
+                              vlib.save_replay(prop, "wire_%s.json" % pair, e))
             real += 1
         if e["hang"] and ("hang", pair) not in seen:
             seen.add(("hang", pair))
